@@ -213,6 +213,23 @@ def c12 (s : Spec.Outcome) (obs : Obs) : Verdict :=
   | .fail _ .copyLimit => (match obs with | .err 'C' => .ok | _ => .viol "limit-not-enforced")
   | _ => (match obs with | .err 'C' => .viol "limit-error-within-limit" | _ => .ok)
 
+/-- C12 judged on OBSERVED sizes: `sizes` = for each copy operation, in order and as far as the harness could
+measure it, the number of bytes that stand at the copy's destination in the output of the patch cut after that
+operation and applied without a limit (`none` = the copied value is `null`, which may count as 0 or 4).  No
+specification of RFC 6902 is involved, so the clause also speaks on texts with repeated member names. -/
+def c12sizesGo (limit : Int) : Nat → List (Option Nat) → Obs → Verdict
+  | _, [], obs => (match obs with | .err 'C' => .viol "limit-error-within-observed-sizes" | _ => .ok)
+  | _, none :: _, _ => .unspec
+  | acc, some n :: rest, obs =>
+    if limit < ((acc + n : Nat) : Int) then
+      (match obs with | .err 'C' => .ok | _ => .viol "limit-not-enforced-on-observed-sizes")
+    else c12sizesGo limit (acc + n) rest obs
+
+/-- entries in order of execution: `some n` = a copy worth `n` bytes, `none` = a copied `null` (0 or 4) or a copy
+that could not be measured; the list is complete up to the point where the patch fails for another reason -/
+def c12sizes (limit : Int) (sizes : List (Option Nat)) (obs : Obs) : Verdict :=
+  if limit ≤ 0 then .unspec else c12sizesGo limit 0 sizes obs
+
 /-! ### C15: bytes -/
 
 def hasRawHtml : Bytes → Bool
